@@ -76,6 +76,11 @@ def gen_cases(rng, tier, rnd):
     for c in cases:
         if c['kind'] in ('dfa', 'nfa', 'pda') and rng.random() < 0.3:
             c['edit'] = edits.propose(rng, c['spec'])
+        elif c['kind'] == 'cfg' and rng.random() < 0.4:
+            c['edit'] = edits.propose(rng, {**c['spec'], 'cnf_only': True})
+            if rng.random() < 0.5:
+                # history: another grammar was derived from, and dropped, earlier in the same interpreter
+                c['prelude'] = gencfg.rename(gencfg.abstract_cnf(rng), rng)[0]
     return cases
 
 
@@ -181,11 +186,18 @@ def _deriv_plain(val):
 
 def run_case(case, env):
     kind = case['kind']
-    obj = build(case['spec'])
     out = {'viol': [], 'evals': 0, 'ticks': 0, 'probes': {'kind_' + kind: 1}, 'hist': {}}
     dig = []
+    if case.get('prelude') and kind == 'cfg':
+        pre = build(case['prelude'])
+        ps = snapshot(pre)
+        for w in sorted(w for w in rcfg.lang_upto(ps, 3) if w)[:3] + [w for w in case['words'][:2]]:
+            call(env, ca.cfg_derive_word, pre, w, 'leftmost', budget=BUDGET)
+        del pre
+        out['probes']['earlier_derivations_from_a_dropped_grammar'] = 1
+    obj = build(case['spec'])
     nontrivial = _run_phase(case, env, obj, out, dig)
-    if case.get('edit') and kind in ('dfa', 'nfa', 'pda'):
+    if case.get('edit') and kind in ('dfa', 'nfa', 'pda', 'cfg'):
         # object-lifetime history: simulate, edit the live object in place, simulate again
         set_knobs(limit=1000)
         try:
@@ -193,7 +205,7 @@ def run_case(case, env):
         except Exception:
             out['probes']['edit_raised'] = 1
         s1 = snapshot(obj)
-        bad = fa.validate_dfa(s1) if kind == 'dfa' else (fa.validate_nfa(s1) if kind == 'nfa' else rpda.validate(s1))
+        bad = fa.validate_dfa(s1) if kind == 'dfa' else (fa.validate_nfa(s1) if kind == 'nfa' else (rpda.validate(s1) if kind == 'pda' else rcfg.validate(s1)))
         if bad:
             return {'harness_error': 'edit produced an invalid object: %s' % (case['edit'],)}
         out['probes']['inplace_edit_between_calls'] = 1
@@ -293,8 +305,9 @@ def _run_phase(case, env, obj, out, dig):
     else:  # cfg
         if not rcfg.is_cnf(snap0) or rcfg.validate(snap0):
             return False
-        L = rcfg.lang_upto(snap0, max([len(w) for w in case['words']] + [0]))
-        for w in case['words']:
+        L = rcfg.lang_upto(snap0, max([len(w) for w in case['words']] + [3]))
+        extra = sorted((w for w in L if w and w not in case['words']), key=lambda w: (-len(w), w))[:3]
+        for w in list(case['words']) + extra:
             if not w or w not in L:
                 continue    # precondition of the statement: non-empty word generated by the grammar
             for mode in ('leftmost', 'rightmost'):
